@@ -3,6 +3,8 @@ from __future__ import annotations
 
 import copy
 
+import weakref
+
 import numpy as np
 from hypothesis import strategies as st
 
@@ -22,6 +24,9 @@ def real_data(cfg):
 
 
 def make_loss(cfg):
+    if cfg["loss"]["kind"] == "adaptive_stub":
+        from harness.stubs import AdaptiveLoss
+        return AdaptiveLoss()
     return lossgen.make_loss(cfg["loss"])
 
 
@@ -62,12 +67,14 @@ def build(cfg, model=None, loss=None, samplers=None, scheduler=None, seeds="spec
         kw["scheduler"] = make_scheduler(c, seeds)
     else:
         kw["samplers"] = make_samplers(c, seeds)
-    return Calibrator(
+    b_arg = np.array([sp["lo"], sp["hi"]]) if c.get("as_array") else [sp["lo"], sp["hi"]]
+    p_arg = np.array(sp["prec"]) if c.get("as_array") else sp["prec"]
+    cal = Calibrator(
         loss_function=loss if loss is not None else make_loss(c),
         real_data=real_data(c),
         model=model if model is not None else models.get(c["model"], c["D"]),
-        parameters_bounds=np.array([sp["lo"], sp["hi"]]) if c.get("as_array") else [sp["lo"], sp["hi"]],
-        parameters_precision=np.array(sp["prec"]) if c.get("as_array") else sp["prec"],
+        parameters_bounds=b_arg,
+        parameters_precision=p_arg,
         ensemble_size=c["E"],
         sim_length=c.get("sim_length"),
         convergence_precision=c.get("convergence_precision"),
@@ -77,6 +84,24 @@ def build(cfg, model=None, loss=None, samplers=None, scheduler=None, seeds="spec
         n_jobs=c.get("n_jobs", 1),
         **kw,
     )
+    CALLER_ARGS[cal] = (b_arg, p_arg)
+    return cal
+
+
+CALLER_ARGS = weakref.WeakKeyDictionary()
+
+
+def caller_reuses_arguments(cal):
+    """The caller overwrites, in place, the bounds / precision arrays it handed to the constructor (its own buffers, reused
+    for something else). Returns True when there was an array to overwrite."""
+    b, p = CALLER_ARGS.get(cal, (None, None))
+    if not isinstance(b, np.ndarray):
+        return False
+    with np.errstate(all="ignore"):
+        b *= 2
+        b += 1
+        p *= 3
+    return True
 
 
 def hist_snapshot(cal):
